@@ -3,6 +3,7 @@ package world
 import (
 	"context"
 	"encoding/hex"
+	"errors"
 	"fmt"
 	"sort"
 	"strings"
@@ -10,6 +11,7 @@ import (
 
 	"github.com/attestantio/dirk/core"
 	"github.com/attestantio/dirk/util"
+	"github.com/attestantio/dirk/util/verifhook"
 	"github.com/herumi/bls-eth-go-binary/bls"
 	pb "github.com/wealdtech/eth2-signer-api/pb/v1"
 )
@@ -58,6 +60,7 @@ type DutyOp struct {
 	Slot    uint64 `json:"slot"`
 	Root    string `json:"root"`
 	Filler  uint64 `json:"filler"` // epoch base for the filler entry of batch2
+	Fault   string `json:"fault"`  // "" | read | write: the instance's slashing database fails while it handles this request (in-process clusters only)
 }
 
 func errClass(err error) string {
@@ -347,6 +350,21 @@ func runDutiesWith(ctx context.Context, sc *DkgScenario, shares map[uint64][]byt
 		}
 		cctx := credsCtx(WithRid(ctx, fmt.Sprintf("duty%d", n)), "c1", "")
 		share := shares[d.Inst]
+		fired := false
+		if d.Fault != "" {
+			// duties are delivered one at a time: the observation points of the whole process fail for the duration of this request
+			want := map[string]bool{"store.fetch.enter": true}
+			if d.Fault == "write" {
+				want = map[string]bool{"store.store.enter": true, "store.batch.enter": true}
+			}
+			verifhook.Hook = func(_ context.Context, site string, _ []byte, _ []byte) error {
+				if want[site] {
+					fired = true
+					return errors.New("injected storage fault")
+				}
+				return nil
+			}
+		}
 		var root [32]byte
 		var sig []byte
 		state := "ERROR"
@@ -395,6 +413,9 @@ func runDutiesWith(ctx context.Context, sc *DkgScenario, shares map[uint64][]byt
 				}
 			}
 		}
+		if d.Fault != "" {
+			verifhook.Hook = nil
+		}
 		valid := len(sig) > 0 && VerifySig(share, root, sig)
 		if _, ok := all[d.Duty]; !ok {
 			all[d.Duty] = &got{root: root, sigs: map[uint64]bls.Sign{}}
@@ -406,7 +427,7 @@ func runDutiesWith(ctx context.Context, sc *DkgScenario, shares map[uint64][]byt
 				all[d.Duty].sigs[d.Inst] = bs
 			}
 		}
-		log.Emit(Ev{"ev": "Partial", "inst": d.Inst, "duty": d.Duty, "variant": d.Variant, "by": d.By, "state": state, "valid": valid, "hassig": len(sig) > 0})
+		log.Emit(Ev{"ev": "Partial", "inst": d.Inst, "duty": d.Duty, "variant": d.Variant, "by": d.By, "state": state, "valid": valid, "hassig": len(sig) > 0, "fault": d.Fault, "fault_fired": fired})
 	}
 	var cpk bls.PublicKey
 	cb, _ := hex.DecodeString(composite)
